@@ -636,6 +636,24 @@ func init() {
 	}
 
 	// ---- time ----
+	// time.Time = Struct{wall ns, monotonic ns or noMono, nil}.  time.Now() carries both (equal
+	// unless the harness shifts the wall clock with verifrt.ShiftWall); time.Unix, Truncate and
+	// Round(0) give wall-only values; Sub/Before/After/Equal use the monotonic readings when both
+	// operands have one, as the real package does.
+	wallOf := func(v Value) *Term { return v.(Struct)[0].(*Term) }
+	monoOf := func(v Value) *Term {
+		t, ok := v.(Struct)[1].(*Term)
+		if !ok {
+			return nil
+		}
+		return t
+	}
+	cmpTerms := func(a, b Value) (*Term, *Term) {
+		if ma, mb := monoOf(a), monoOf(b); ma != nil && mb != nil {
+			return ma, mb
+		}
+		return wallOf(a), wallOf(b)
+	}
 	I["time.Now"] = func(th *Thread, fn *ssa.Function, args []Value) Value {
 		m := th.m
 		ts := m.ts
@@ -647,7 +665,7 @@ func init() {
 		}
 		m.lastNow = now
 		m.res.Assumes = appendUniq(m.res.Assumes, "time.Now returns non-decreasing instants in [0, 2^62) ns")
-		return m.mkTime(fn.Signature.Results().At(0).Type(), now)
+		return Struct{now, now, (*Value)(nil)}
 	}
 	I["time.Unix"] = func(th *Thread, fn *ssa.Function, args []Value) Value {
 		m := th.m
@@ -657,43 +675,64 @@ func init() {
 		return m.mkTime(fn.Signature.Results().At(0).Type(), inst)
 	}
 	I["(time.Time).Sub"] = func(th *Thread, fn *ssa.Function, args []Value) Value {
-		a, b := args[0].(Struct), args[1].(Struct)
-		return th.m.ts.Bin(OpSub, a[1].(*Term), b[1].(*Term))
+		a, b := cmpTerms(args[0], args[1])
+		return th.m.ts.Bin(OpSub, a, b)
 	}
 	I["time.Since"] = func(th *Thread, fn *ssa.Function, args []Value) Value {
-		now := I["time.Now"](th, fn.Prog.ImportedPackage("time").Func("Now"), nil).(Struct)
-		return th.m.ts.Bin(OpSub, now[1].(*Term), args[0].(Struct)[1].(*Term))
+		now := I["time.Now"](th, fn.Prog.ImportedPackage("time").Func("Now"), nil)
+		a, b := cmpTerms(now, args[0])
+		return th.m.ts.Bin(OpSub, a, b)
 	}
 	I["(time.Time).UnixNano"] = func(th *Thread, fn *ssa.Function, args []Value) Value {
-		return args[0].(Struct)[1]
+		return wallOf(args[0])
 	}
 	I["(time.Time).IsZero"] = func(th *Thread, fn *ssa.Function, args []Value) Value {
-		return th.m.ts.Eq(args[0].(Struct)[1].(*Term), th.m.ts.Const(64, 0))
+		return th.m.ts.Eq(wallOf(args[0]), th.m.ts.Const(64, 0))
 	}
 	I["(time.Time).Before"] = func(th *Thread, fn *ssa.Function, args []Value) Value {
-		return th.m.ts.Cmp(OpSLt, args[0].(Struct)[1].(*Term), args[1].(Struct)[1].(*Term))
+		a, b := cmpTerms(args[0], args[1])
+		return th.m.ts.Cmp(OpSLt, a, b)
 	}
 	I["(time.Time).After"] = func(th *Thread, fn *ssa.Function, args []Value) Value {
-		return th.m.ts.Cmp(OpSLt, args[1].(Struct)[1].(*Term), args[0].(Struct)[1].(*Term))
+		a, b := cmpTerms(args[0], args[1])
+		return th.m.ts.Cmp(OpSLt, b, a)
+	}
+	I["(time.Time).Equal"] = func(th *Thread, fn *ssa.Function, args []Value) Value {
+		a, b := cmpTerms(args[0], args[1])
+		return th.m.ts.Eq(a, b)
 	}
 	I["(time.Time).Truncate"] = func(th *Thread, fn *ssa.Function, args []Value) Value {
 		m := th.m
-		t := args[0].(Struct)
 		d := args[1].(*Term)
+		w := wallOf(args[0])
 		if d.IsConst() && d.Signed() <= 0 {
-			return t
+			return m.mkTime(nil, w) // strips the monotonic reading
 		}
 		// instants are non-negative in this model: t - t mod d
-		inst := t[1].(*Term)
-		return m.mkTime(fn.Signature.Results().At(0).Type(), m.ts.Bin(OpSub, inst, m.ts.Bin(OpURem, inst, d)))
+		return m.mkTime(nil, m.ts.Bin(OpSub, w, m.ts.Bin(OpURem, w, d)))
 	}
 	I["(time.Time).Round"] = func(th *Thread, fn *ssa.Function, args []Value) Value {
-		th.m.unsupported("time.Time.Round")
+		d := args[1].(*Term)
+		if d.IsConst() && d.Signed() <= 0 {
+			return th.m.mkTime(nil, wallOf(args[0])) // Round(0): strips the monotonic reading
+		}
+		th.m.unsupported("time.Time.Round with a positive duration")
 		return nil
 	}
 	I["(time.Time).Add"] = func(th *Thread, fn *ssa.Function, args []Value) Value {
+		ts := th.m.ts
+		d := args[1].(*Term)
+		out := Struct{ts.Bin(OpAdd, wallOf(args[0]), d), Iface{}, (*Value)(nil)}
+		if mo := monoOf(args[0]); mo != nil {
+			out[1] = ts.Bin(OpAdd, mo, d)
+		}
+		return out
+	}
+	I[rtPkg+"ShiftWall"] = func(th *Thread, fn *ssa.Function, args []Value) Value {
+		ts := th.m.ts
 		t := args[0].(Struct)
-		return th.m.mkTime(fn.Signature.Results().At(0).Type(), th.m.ts.Bin(OpAdd, t[1].(*Term), args[1].(*Term)))
+		delta := ts.Bin(OpMul, args[1].(*Term), ts.Const(64, 1000000000))
+		return Struct{ts.Bin(OpAdd, t[0].(*Term), delta), t[1], t[2]}
 	}
 	I["(time.Duration).String"] = func(th *Thread, fn *ssa.Function, args []Value) Value {
 		t := args[0].(*Term)
@@ -804,8 +843,10 @@ func (m *Machine) newError(msg Str) Value {
 	return Iface{T: m.env.errorStringPtrT, V: cell}
 }
 
-func (m *Machine) mkTime(T types.Type, inst *Term) Value {
-	return Struct{m.ts.Const(64, 0), inst, (*Value)(nil)}
+// mkTime builds a wall-only time value (a nil interface in the second slot marks the absence of a
+// monotonic clock reading).
+func (m *Machine) mkTime(T types.Type, wall *Term) Value {
+	return Struct{wall, Iface{}, (*Value)(nil)}
 }
 
 func durationString(d int64) string {
